@@ -39,9 +39,16 @@ impl KeyInfo { pub fn key_identifier(&self) -> KeyIdentifier { unimplemented!() 
 impl Error { pub fn signer(_e: SignerError) -> Self { unimplemented!() } }
 impl RevocationRequest { pub fn new(_c: ResourceClassName, _k: KeyIdentifier) -> Self { unimplemented!() } }
 impl Roas { pub fn create_renewal(&self, _f: bool, _k: &CertifiedKey, _t: &IssuanceTimingConfig, _s: &KrillSigner) -> KrillResult<RoaUpdates> { unimplemented!() } }
-impl AspaObjects { pub fn create_renewal(&self, _k: &CertifiedKey, _r: Option<i64>, _t: &IssuanceTimingConfig, _s: &KrillSigner) -> KrillResult<AspaObjectsUpdates> { unimplemented!() } }
-impl BgpSecCertificates { pub fn create_renewal(&self, _k: &CertifiedKey, _r: Option<i64>, _t: &IssuanceTimingConfig, _s: &KrillSigner) -> KrillResult<BgpSecCertificateUpdates> { unimplemented!() } }
+impl AspaObjects { pub fn create_renewal(&self, _k: &CertifiedKey, _r: Option<Time>, _t: &IssuanceTimingConfig, _s: &KrillSigner) -> KrillResult<AspaObjectsUpdates> { unimplemented!() } }
+impl BgpSecCertificates { pub fn create_renewal(&self, _k: &CertifiedKey, _r: Option<Time>, _t: &IssuanceTimingConfig, _s: &KrillSigner) -> KrillResult<BgpSecCertificateUpdates> { unimplemented!() } }
 impl ChildCertificates { pub fn activate_key(&self, _c: &ReceivedCert, _t: &IssuanceTimingConfig, _s: &KrillSigner) -> KrillResult<ChildCertificateUpdates> { unimplemented!() } }
+impl Default for RoaUpdates { fn default() -> Self { unimplemented!() } }
+impl Default for AspaObjectsUpdates { fn default() -> Self { unimplemented!() } }
+impl Default for BgpSecCertificateUpdates { fn default() -> Self { unimplemented!() } }
+impl IssuanceTimingConfig {
+    pub fn new_aspa_issuance_threshold(&self) -> Time { unimplemented!() }
+    pub fn new_bgpsec_issuance_threshold(&self) -> Time { unimplemented!() }
+}
 impl RoaUpdates { pub fn is_empty(&self) -> bool { unimplemented!() } }
 impl AspaObjectsUpdates { pub fn is_empty(&self) -> bool { unimplemented!() } }
 impl BgpSecCertificateUpdates { pub fn is_empty(&self) -> bool { unimplemented!() } }
@@ -55,10 +62,24 @@ pub assume_specification [KrillSigner::get_key_info] (s: &KrillSigner, k: &KeyId
 pub assume_specification [KeyInfo::key_identifier] (s: &KeyInfo) -> (r: KeyIdentifier);
 pub assume_specification [Error::signer] (e: SignerError) -> (r: Error);
 pub assume_specification [RevocationRequest::new] (c: ResourceClassName, k: KeyIdentifier) -> (r: RevocationRequest);
-pub assume_specification [Roas::create_renewal] (x: &Roas, f: bool, k: &CertifiedKey, t: &IssuanceTimingConfig, s: &KrillSigner) -> (r: KrillResult<RoaUpdates>);
-pub assume_specification [AspaObjects::create_renewal] (x: &AspaObjects, k: &CertifiedKey, o: Option<i64>, t: &IssuanceTimingConfig, s: &KrillSigner) -> (r: KrillResult<AspaObjectsUpdates>);
-pub assume_specification [BgpSecCertificates::create_renewal] (x: &BgpSecCertificates, k: &CertifiedKey, o: Option<i64>, t: &IssuanceTimingConfig, s: &KrillSigner) -> (r: KrillResult<BgpSecCertificateUpdates>);
-pub assume_specification [ChildCertificates::activate_key] (x: &ChildCertificates, c: &ReceivedCert, t: &IssuanceTimingConfig, s: &KrillSigner) -> (r: KrillResult<ChildCertificateUpdates>);
+/// the key under which the objects of an update set were issued (ghost; the signing itself is outside)
+pub uninterp spec fn roas_issued_under(u: RoaUpdates) -> Option<CertifiedKey>;
+pub uninterp spec fn aspas_issued_under(u: AspaObjectsUpdates) -> Option<CertifiedKey>;
+pub uninterp spec fn bgpsec_issued_under(u: BgpSecCertificateUpdates) -> Option<CertifiedKey>;
+pub uninterp spec fn certs_issued_under(u: ChildCertificateUpdates) -> Option<ReceivedCert>;
+pub assume_specification [Roas::create_renewal] (x: &Roas, f: bool, k: &CertifiedKey, t: &IssuanceTimingConfig, s: &KrillSigner) -> (r: KrillResult<RoaUpdates>)
+    ensures r is Ok ==> roas_issued_under(r->Ok_0) == Some(*k);
+pub assume_specification [<RoaUpdates as Default>::default] () -> (r: RoaUpdates) ensures roas_issued_under(r) is None;
+pub assume_specification [<AspaObjectsUpdates as Default>::default] () -> (r: AspaObjectsUpdates) ensures aspas_issued_under(r) is None;
+pub assume_specification [<BgpSecCertificateUpdates as Default>::default] () -> (r: BgpSecCertificateUpdates) ensures bgpsec_issued_under(r) is None;
+pub assume_specification [IssuanceTimingConfig::new_aspa_issuance_threshold] (t: &IssuanceTimingConfig) -> (r: Time);
+pub assume_specification [IssuanceTimingConfig::new_bgpsec_issuance_threshold] (t: &IssuanceTimingConfig) -> (r: Time);
+pub assume_specification [AspaObjects::create_renewal] (x: &AspaObjects, k: &CertifiedKey, o: Option<Time>, t: &IssuanceTimingConfig, s: &KrillSigner) -> (r: KrillResult<AspaObjectsUpdates>)
+    ensures r is Ok ==> aspas_issued_under(r->Ok_0) == Some(*k);
+pub assume_specification [BgpSecCertificates::create_renewal] (x: &BgpSecCertificates, k: &CertifiedKey, o: Option<Time>, t: &IssuanceTimingConfig, s: &KrillSigner) -> (r: KrillResult<BgpSecCertificateUpdates>)
+    ensures r is Ok ==> bgpsec_issued_under(r->Ok_0) == Some(*k);
+pub assume_specification [ChildCertificates::activate_key] (x: &ChildCertificates, c: &ReceivedCert, t: &IssuanceTimingConfig, s: &KrillSigner) -> (r: KrillResult<ChildCertificateUpdates>)
+    ensures r is Ok ==> certs_issued_under(r->Ok_0) == Some(*c);
 pub assume_specification [RoaUpdates::is_empty] (x: &RoaUpdates) -> (r: bool);
 pub assume_specification [AspaObjectsUpdates::is_empty] (x: &AspaObjectsUpdates) -> (r: bool);
 pub assume_specification [BgpSecCertificateUpdates::is_empty] (x: &BgpSecCertificateUpdates) -> (r: bool);
@@ -80,6 +101,16 @@ pub open spec fn ev_enabled(ev: CertAuthEvent, ks: KeyState) -> bool {
         CertAuthEvent::KeyPendingToActive { .. } => phase(ks) is Pending,
         CertAuthEvent::KeyRollActivated { .. } => phase(ks) is RollNew,
         CertAuthEvent::KeyRollFinished { .. } => phase(ks) is RollOld,
+        _ => true,
+    }
+}
+/// every object-update event in evs[from..] carries objects issued under key `k`
+pub open spec fn objects_under(evs: Seq<CertAuthEvent>, from: int, k: CertifiedKey) -> bool {
+    forall |i: int| from <= i < evs.len() ==> match #[trigger] evs[i] {
+        CertAuthEvent::RoasUpdated { updates, .. } => roas_issued_under(updates) == Some(k),
+        CertAuthEvent::AspaObjectsUpdated { updates, .. } => aspas_issued_under(updates) == Some(k),
+        CertAuthEvent::BgpSecCertificatesUpdated { updates, .. } => bgpsec_issued_under(updates) == Some(k),
+        CertAuthEvent::ChildCertificatesUpdated { updates, .. } => certs_issued_under(updates) == Some(k.incoming_cert),
         _ => true,
     }
 }
@@ -143,6 +174,31 @@ pub open spec fn key_neutral(ev: CertAuthEvent) -> bool {
         U.fn(RC, 'ResourceClass', 'process_keyroll_finish', ensures=[
             ('only_from_roll_old', 'r is Ok ==> phase(self.key_state) is RollOld && r->Ok_0 is KeyRollFinished && ev_enabled(r->Ok_0, self.key_state)'),
             ('err_otherwise', 'r is Err ==> !(phase(self.key_state) is RollOld)')]),
+        U.fn(RC, 'ResourceClass', 'current_key', ensures=[('current_of_phase', '''match self.key_state {
+                KeyState::Pending(_) => r is None, KeyState::Active(c) => r is Some && *r->Some_0 == c, KeyState::RollPending(_, c) => r is Some && *r->Some_0 == c,
+                KeyState::RollNew(_, c) => r is Some && *r->Some_0 == c, KeyState::RollOld(c, _) => r is Some && *r->Some_0 == c }''')]),
+        U.fn(RC, 'ResourceClass', 'get_current_key', ensures=[('same', '''match self.key_state {
+                KeyState::Pending(_) => r is Err, KeyState::Active(c) => r is Ok && *r->Ok_0 == c, KeyState::RollPending(_, c) => r is Ok && *r->Ok_0 == c,
+                KeyState::RollNew(_, c) => r is Ok && *r->Ok_0 == c, KeyState::RollOld(c, _) => r is Ok && *r->Ok_0 == c }''')]),
+        # the periodic renewals sign with the CURRENT key
+        U.fn(RC, 'ResourceClass', 'create_roa_renewal', ensures=[('under_current_key', '''r is Ok && roas_issued_under(r->Ok_0) is Some ==>
+                !(phase(self.key_state) is Pending) && roas_issued_under(r->Ok_0)->Some_0 == (match self.key_state { KeyState::Active(c) => c, KeyState::RollPending(_, c) => c,
+                    KeyState::RollNew(_, c) => c, KeyState::RollOld(c, _) => c, KeyState::Pending(_) => arbitrary() })''')]),
+        U.fn(RC, 'ResourceClass', 'create_aspa_renewal', ensures=[('under_current_key', '''r is Ok && aspas_issued_under(r->Ok_0) is Some ==>
+                !(phase(self.key_state) is Pending) && aspas_issued_under(r->Ok_0)->Some_0 == (match self.key_state { KeyState::Active(c) => c, KeyState::RollPending(_, c) => c,
+                    KeyState::RollNew(_, c) => c, KeyState::RollOld(c, _) => c, KeyState::Pending(_) => arbitrary() })''')]),
+        U.fn(RC, 'ResourceClass', 'create_bgpsec_renewal', ensures=[('under_current_key', '''r is Ok && bgpsec_issued_under(r->Ok_0) is Some ==>
+                !(phase(self.key_state) is Pending) && bgpsec_issued_under(r->Ok_0)->Some_0 == (match self.key_state { KeyState::Active(c) => c, KeyState::RollPending(_, c) => c,
+                    KeyState::RollNew(_, c) => c, KeyState::RollOld(c, _) => c, KeyState::Pending(_) => arbitrary() })''')]),
+        # activation: all objects move to the NEW key in the same event set as KeyRollActivated
+        U.fn(RC, 'ResourceClass', 'append_keyroll_activate', ensures=[
+            ('activates_only_from_roll_new', 'r == Ok::<bool, Error>(true) ==> phase(self.key_state) is RollNew'),
+            ('key_event_first_and_enabled', '''r == Ok::<bool, Error>(true) ==> final(events)@.len() > old(events)@.len()
+                && final(events)@[old(events)@.len() as int] is KeyRollActivated && ev_enabled(final(events)@[old(events)@.len() as int], self.key_state)
+                && (forall |i: int| 0 <= i < old(events)@.len() ==> final(events)@[i] == old(events)@[i])'''),
+            ('all_objects_reissued_under_the_new_key', 'r == Ok::<bool, Error>(true) ==> objects_under(final(events)@, old(events)@.len() as int, self.key_state->RollNew_0)'),
+            ('no_event_when_not_activating', 'r == Ok::<bool, Error>(false) ==> final(events)@ == old(events)@'),
+        ]),
         U.fn(RC, 'ResourceClass', 'key_roll_possible', ensures=[('iff_active', 'r == (phase(self.key_state) is Active)')]),
         U.fn(RC, 'ResourceClass', 'append_keyroll_initiate',
              ensures=[
